@@ -16,6 +16,30 @@ static const void *get_table(const void *h, unsigned int, size_t *len) {
 }
 static void release_table(const void *h, const void *) { Served *s = (Served *)h; ++s->releases; }
 
+// borrow-discipline mode: every get_table hands out a fresh heap copy (so that a use after release is a sanitizer fault),
+// release_table frees it; the sequence of events is the observable
+struct Lender { const uint8_t *p; size_t n; bool absent; std::vector<void *> out; std::vector<void *> ids; std::string trace; int bad; };
+static int lender_id(Lender *l, const void *q) { for (size_t i = 0; i < l->ids.size(); ++i) if (l->ids[i] == q) return (int)i; return -1; }
+static const void *lend(const void *h, unsigned int, size_t *len) {
+    Lender *l = (Lender *)h;
+    if (l->absent) { *len = 0; return 0; }
+    void *c = malloc(l->n ? l->n : 1); if (l->n) memcpy(c, l->p, l->n);
+    l->out.push_back(c); l->ids.push_back(c); *len = l->n;
+    l->trace += (l->trace.empty() ? "g" : " g") + std::to_string(l->ids.size() - 1);
+    return c;
+}
+static void take_back(const void *h, const void *q) {
+    Lender *l = (Lender *)h;
+    int id = -1;
+    for (size_t i = 0; i < l->out.size(); ++i) if (l->out[i] == q) { id = (int)i; break; }
+    if (id < 0) { ++l->bad; l->trace += " r?"; return; }
+    // the id of a pointer is the number of the get that produced it (pointers may be reused by malloc: search newest first)
+    int num = -1; for (int i = (int)l->ids.size() - 1; i >= 0; --i) if (l->ids[i] == q) { num = i; break; }
+    l->trace += " r" + std::to_string(num);
+    l->out.erase(l->out.begin() + id);
+    free(const_cast<void *>(q));
+}
+
 int main() {
     std::string line;
     while (std::getline(std::cin, line)) {
@@ -66,6 +90,26 @@ int main() {
                 }
                 if (!g_faults && sv.gets != sv.releases) out += " BORROW gets=" + std::to_string(sv.gets) + " releases=" + std::to_string(sv.releases);
             }
+        }
+        else if (w.size() == 4 && w[0] == "borrow" && (w[2] == "absent" || parse_hex(w[2], b))) {
+            // borrow <threshold hex> <table hex|absent> <number of re-assignments>
+            Exact in(b);
+            Lender ld = { in.p, in.n, w[2] == "absent", {}, {}, "", 0 };
+            gr_face_ops ops = { sizeof(gr_face_ops), lend, take_back };
+            uint32_t th = (uint32_t)strtoul(w[1].c_str(), 0, 16);
+            int nm = atoi(w[3].c_str());
+            {
+                Face face(&ld, ops);
+                {
+                    Face::Table t(face, TtfUtil::Tag::Silf, th);
+                    for (int k = 0; k < nm; ++k) t = Face::Table(face, TtfUtil::Tag::Silf, th);
+                    volatile size_t sz = t.size(); (void)sz;
+                    const byte *q = t; if (q && t.size()) { volatile byte x = q[t.size() - 1]; (void)x; }
+                }
+            }
+            if (g_faults) out = "fault";
+            else out = (ld.trace.empty() ? std::string("-") : ld.trace) + " | outstanding=" + std::to_string(ld.out.size()) + " bad=" + std::to_string(ld.bad);
+            for (void *q : ld.out) free(q);
         }
         puts(out.c_str());
         fflush(stdout);
